@@ -47,6 +47,10 @@ CHECKS = {
    technique='exhaustive enumeration of monomial/degree/interval/panel grids against closed forms (exactness by linearity) with negative controls',
    text='Each kernel is run on a complete finite grid whose oracle is a closed form or an independent evaluation: all monomials up to the guaranteed degree for the Gauss-Legendre panels and Simpson (with the first non-exact degree as negative control), integrand families with closed-form integrals for the adaptive quadrature at every requested tolerance, unimodal families for the golden section, polynomials on three table layouts for divided differences, an angle grid for the Euler rotation and a (Z,E) grid for the Fermi function against an independent long-double Lanczos evaluation.',
    note='Trusted: closed forms; long double arithmetic of the reference evaluations.'),
+ 'C14': dict(level='exploration', ref='DESIGN.md §2 C14', engine='c14',
+   technique='exhaustive enumeration of small synthetic datasets (all cell assignments over a value alphabet) x all table-boundary deviates, encoder-side tables as reference model',
+   text='Every assignment of a 4-value alphabet to the cells of the kinematic triangle (n=2,3; n=4 thorough) plus shaped larger tables, written with the repository\'s own encoder, is loaded by the real decoder and sampler; every c.d.f. line is compared with the encoder-side table, and both sampling methods are driven over every table boundary (exact and +-1e-9/1e-3), mid points and tails, checking domain, cell membership, monotonicity and the exported event.',
+   note='Trusted: resources/data/dbd_gA/tools/mkocdfdata.py as the documented encoder (imported, not copied); datasets with emin+emax <= Qbb.'),
 }
 NOT_YET = {
 }
@@ -89,6 +93,7 @@ def main():
             {'name': 'c11', 'path': 'checks/c11.cc', 'serves_properties': ['C11'], 'kind_free_text': 'reader window model checker and round-trip enumerator'},
             {'name': 'c10', 'path': 'checks/c10.cc', 'serves_properties': ['C10'], 'kind_free_text': 'MDL product enumerator with geometric invariants'},
             {'name': 'c16', 'path': 'checks/c16.cc', 'serves_properties': ['C16'], 'kind_free_text': 'kernel contract grids'},
+            {'name': 'c14', 'path': 'checks/c14.cc', 'serves_properties': ['C14'], 'kind_free_text': 'gA dataset enumerator and sampler grid'},
             {'name': 'd0ref', 'path': 'tools/f2cxx.py', 'serves_properties': ['C01', 'C02', 'C06'], 'kind_free_text': 'reference model generated from resources/code/decay0/decay0_2020-04-20.for'},
         ],
         'checks': checks,
